@@ -130,6 +130,8 @@ pub fn item_kind(p: &Program, i: usize) -> String {
     match &p.items[i] {
         Item::Orig(l) => format!("orig/{}", lit_class(l)),
         Item::Break => "break".into(),
+        Item::LBreak(_) => "labelled-break".into(),
+        Item::LOrig(..) => "labelled-orig".into(),
         Item::Stmt { stmt, .. } => match stmt_lit(stmt) {
             Some(l) => format!("{}/{}", stmt_kind(stmt), lit_class(l)),
             None => stmt_kind(stmt).to_string(),
